@@ -156,6 +156,14 @@ def evaluate(case):
     P = out["problems"]
     with genpkg.scratch() as d:
         target = os.path.join(d, "out_schema." + case.get("ext", fmt))
+        if case.get("existing") == "longer_text":
+            open(target, "w").write("# left over from an earlier, much larger schema\n" + "x = 1\n" * 4000)
+        elif case.get("existing") == "previous_bigger_generation":
+            with contextlib.redirect_stdout(io.StringIO()):
+                big = sdl + "\n".join(f"type Extra{i} {{ f{i}: Int }}" for i in range(60)) + "\n"
+                bp = os.path.join(d, "big.graphql")
+                open(bp, "w", encoding="utf-8").write(big)
+                acm.graphql_schema({"tool": {"ariadne-codegen": {"schema_path": bp, "target_file_path": target}}})
         sec = {"target_file_path": target}
         if vnames:
             sec["schema_variable_name"], sec["type_map_variable_name"] = vnames
@@ -296,6 +304,24 @@ def description_cases():
     return out
 
 
+def root_cases():
+    """Every subset of root operation types (query always), with default and custom type names, with and without an explicit schema block."""
+    out = []
+    for custom in (False, True):
+        for m in (False, True):
+            for sub in (False, True):
+                q, mu, su = ("RootQ", "RootM", "RootS") if custom else ("Query", "Mutation", "Subscription")
+                parts = [f"type {q} {{ a: Int }}"] + ([f"type {mu} {{ m(x: Int): Int }}"] if m else []) + ([f"type {su} {{ s: Int! }}"] if sub else [])
+                block = "schema { query: " + q + (f" mutation: {mu}" if m else "") + (f" subscription: {su}" if sub else "") + " }\n"
+                for explicit in ((True,) if custom else (False, True)):
+                    sdl = (block if explicit else "") + "\n".join(parts) + "\n"
+                    out.append((f"roots:{'custom' if custom else 'default'}:{'Q' + ('M' if m else '') + ('S' if sub else '')}:{'block' if explicit else 'implicit'}", sdl,
+                                {"root_types", f"roots:{'Q' + ('M' if m else '') + ('S' if sub else '')}"}))
+    # a type merely NAMED like a root but not used as one
+    out.append(("roots:decoy_mutation_type", "schema { query: Q }\ntype Q { a: Int }\ntype Mutation { notARoot: Int }\ntype Subscription { alsoNot: Int }\n", {"root_types", "roots:decoys"}))
+    return out
+
+
 def hierarchy_cases():
     """Interface hierarchies: every order in which an interface / an object can list the interfaces it implements."""
     out = []
@@ -313,7 +339,7 @@ def hierarchy_cases():
 
 def build_cases(tier):
     cases = []
-    for label, sdl, tags in description_cases() + hierarchy_cases():
+    for label, sdl, tags in description_cases() + hierarchy_cases() + root_cases():
         build_schema(sdl)
         cases.append(dict(sdl=sdl, components=(label,), format="py", vars=None, source="sdl", tags=tags))
         if tier != "quick" or label.endswith(("@field", "@object")) or label.startswith("impl:"):
@@ -344,6 +370,11 @@ def build_cases(tier):
             cases.append(dict(sdl=sdl, components=(comp,), format=fmt, ext=ext, vars=None, source="sdl", tags={f"target_extension:{ext}"}))
         for fmt in ("py", "graphql"):
             cases.append(dict(sdl=sdl, components=(comp,), format=fmt, vars=None, source="both", tags={"both_sources"}))
+    # regeneration onto an existing, longer target file
+    for comp in ("interface_chain", "enum_described_deprecated"):
+        for fmt in ("py", "graphql"):
+            for ex in ("longer_text", "previous_bigger_generation"):
+                cases.append(dict(sdl=build_sdl((comp,)), components=(comp,), format=fmt, vars=None, source="sdl", existing=ex, tags={f"existing_target:{ex}"}))
     all_sdl = build_sdl([n for n in names if n not in NO_BASE and n != "schema_description"])
     cases.append(dict(sdl=all_sdl, components=("ALL",), format="py", vars=None, source="sdl"))
     cases.append(dict(sdl=all_sdl, components=("ALL",), format="graphql", vars=None, source="sdl"))
@@ -360,7 +391,7 @@ def main(tier):
     distinct = set()
     for case, (st, r) in zip(cases, results):
         feats = set(case.get("tags") or ()) | {f"component:{c}" for c in case["components"]} | {f"format:{case['format']}", f"source:{case['source']}", "vars:" + ("default" if not case["vars"] else case["vars"][0])}
-        desc = {"components": list(case["components"]), "format": case["format"], "variables": case["vars"], "source": case["source"], "sdl": case["sdl"][:3000], "ext": case.get("ext")}
+        desc = {"components": list(case["components"]), "format": case["format"], "variables": case["vars"], "source": case["source"], "sdl": case["sdl"][:3000], "ext": case.get("ext"), "existing": case.get("existing")}
         distinct.add(case["sdl"])
         if rep.triage:
             rep.seen(feats)
@@ -393,6 +424,8 @@ def replay(path):
                 vars=tuple(c["variables"]) if c["variables"] else None, source=c["source"])
     if c.get("ext"):
         case["ext"] = c["ext"]
+    if c.get("existing"):
+        case["existing"] = c["existing"]
     st, r = pool.run_forked(evaluate, case)
     print(st, r)
     return 1 if st != "ok" or r["status"] != "ok" or r["problems"] else 0
